@@ -112,4 +112,37 @@ def specVerb (v : Bytes) : Verb :=
 open Nq.SmtpSession in
 def specParse (l : Bytes) : Verb × Bytes := (specVerb (specSplit l).1, (specSplit l).2)
 
+/-! ### a whole SMTP session laid out over its input stream -/
+
+section session
+open Nq.SmtpSession Nq.SmtpIn
+
+def verbOfCmd : Cmd → Verb
+  | .helo => .helo | .ehlo => .ehlo | .rset => .rset | .help => .help | .noop => .noop | .vrfy => .vrfy
+  | .unimpl => .unimpl | .quit => .quit | .mail _ => .mail | .rcpt _ => .rcpt | .data _ => .data
+
+def argOfCmd : Cmd → Option Bytes
+  | .mail a => some a
+  | .rcpt a => some a
+  | _ => none
+
+/-- command `c` is what line `l` says: the verb the spec finds in the table, and (MAIL, RCPT) the spec's argument -/
+def LineIs (l : Bytes) (c : Cmd) : Prop :=
+  verbOfCmd c = (specParse l).1 ∧ ∀ a, argOfCmd c = some a → a = (specParse l).2
+
+/-- `Framed inp tr`: the events `tr` account for the stream `inp` from left to right — every event is the next
+LF-terminated line, read as the spec says; a DATA answered 354 is followed by its message, which ends where the
+reference decoder of RFC 5321 §4.5.2 (`rfcDecode`, C05) says, and the next command line starts right there; after
+an event that ends the session nothing more is read; the session otherwise ends where the stream has no further LF. -/
+inductive Framed : Bytes → List (Cmd × Out) → Prop
+  | eof (inp : Bytes) : LF ∉ inp → Framed inp []
+  | last (l rest : Bytes) (c : Cmd) (o : Out) : LF ∉ l → LineIs l c → o.halt = true → Framed (l ++ LF :: rest) [(c, o)]
+  | cmd (l rest : Bytes) (c : Cmd) (o : Out) (tr : List (Cmd × Out)) : LF ∉ l → LineIs l c → o.halt = false →
+      o.replies.head? ≠ some .go → Framed rest tr → Framed (l ++ LF :: rest) ((c, o) :: tr)
+  | data (l rest body rest' : Bytes) (c : Cmd) (o : Out) (tr : List (Cmd × Out)) : LF ∉ l → LineIs l c → o.halt = false →
+      o.replies.head? = some .go → rfcDecode rest = .accepted body rest' → Framed rest' tr →
+      Framed (l ++ LF :: rest) ((c, o) :: tr)
+
+end session
+
 end Nq.CmdLineSpec
